@@ -240,9 +240,25 @@ enum { K_H0=40, K_MUL, K_EVOL, K_FASTEVOL, K_DOT, K_PREPAVG, K_ADDRR, K_BUFSIZE,
 struct evbuf { struct SU_vector state; struct SU_vector op; };                 /* SQuIDS::expectationValueDBuffer */
 double* g_x; unsigned g_nxgrid;
 /* std::lower_bound on the node grid: ASSUMED contract for a sorted range: smallest k with !(x[k]<xi), or n */
-static size_t sq_lower_bound(const double* x, size_t n, double xi){ size_t k=nondet_size_t(); __CPROVER_assume(k<=n && (k==n || !(x[k]<xi)) && (k==0 || x[k-1]<xi)); return k; }
+#ifdef NXU
+/* Grid of ANY length (nx<=NXU is the size of the array object only): the harness is loop free, so the universally quantified preconditions -- grid strictly
+ * increasing, finite, state[e].rho is node e's block of density matrices -- are INSTANTIATED here, at the indices a call that brackets with lower_bound can
+ * consult (0, 1, k-1, k, n-1), instead of being established by a loop over all nodes.  g_xid records the bracketing index as a witness for the harness
+ * (the harness asserts that the logged operands ARE the states of nodes g_xid, g_xid+1 and that they bracket x). */
+static size_t g_xid;
+#define SQ_FIN(v) (!SQ_ISNAN(v) && !__CPROVER_isinfd(v))
+static void sq_grid_instances(const double* x, size_t n, size_t k){
+  size_t a = k>0 ? k-1 : 0; g_xid=a;
+  __CPROVER_assume(SQ_FIN(x[0]) && SQ_FIN(x[1]) && SQ_FIN(x[n-1]) && x[0]<x[1] && (n==2 || x[1]<x[n-1]));
+  if(a+1<n){ __CPROVER_assume(SQ_FIN(x[a]) && SQ_FIN(x[a+1]) && x[a]<x[a+1] && (a==0 || x[0]<x[a]) && (a+1==n-1 || x[a+1]<x[n-1]));
+    g_state[a].rho=g_rho_s[a]; g_state[a+1].rho=g_rho_s[a+1]; }
+}
+#else
+#define sq_grid_instances(x,n,k) ((void)0)
+#endif
+static size_t sq_lower_bound(const double* x, size_t n, double xi){ size_t k=nondet_size_t(); __CPROVER_assume(k<=n && (k==n || !(x[k]<xi)) && (k==0 || x[k-1]<xi)); sq_grid_instances(x,n,k); return k; }
 /* std::upper_bound: smallest k with xi<x[k], or n (assumed contract; the library is expected to use lower_bound -- whichever it calls is modelled) */
-static size_t sq_upper_bound(const double* x, size_t n, double xi){ size_t k=nondet_size_t(); __CPROVER_assume(k<=n && (k==n || xi<x[k]) && (k==0 || !(xi<x[k-1]))); return k; }
+static size_t sq_upper_bound(const double* x, size_t n, double xi){ size_t k=nondet_size_t(); __CPROVER_assume(k<=n && (k==n || xi<x[k]) && (k==0 || !(xi<x[k-1]))); sq_grid_instances(x,n,k); return k; }
 static void hook_H0(const struct SQuIDS* self, double x, unsigned irho, struct SU_vector* out){ LOG(K_H0,0,irho,x,out,0,0,0,0.0); }
 static void op_assign_mul(struct SU_vector* target, const struct SU_vector* a, double s, int w){ LOG(K_MUL,0,0,s,target,a,0,w,0.0); }
 static void op_assign_evol(struct SU_vector* target, const struct SU_vector* h0, const struct SU_vector* a, double tau, int w){ LOG(K_EVOL,0,0,tau,target,h0,a,w,0.0); }
@@ -274,6 +290,19 @@ void SQuIDS_GetIntermediateState(const struct SQuIDS* self, struct SU_vector* re
 //@BODY file=src/SQuIDS.cpp sig=/SU_vector\s+SQuIDS::GetIntermediateState\s*\(/ rules=common,squids_c05,squids_members
 }
 
+#ifdef NXU
+static void mk_grid(struct SQuIDS* S, double* xi){        /* loop free: contents of the grid and of state[] are arbitrary; see sq_grid_instances */
+  S->nx=nondet_unsigned(); __CPROVER_assume(2<=S->nx && S->nx<=NXU);
+  S->x=malloc(NXU*sizeof(double)); __CPROVER_assume(S->x!=NULL);
+  *xi=nondet_double(); __CPROVER_assume(!SQ_ISNAN(*xi));
+  S->t=nondet_double(); S->t_ini=nondet_double(); S->state=g_state;
+  nlog=0; sq_thrown=0;
+}
+#define SQ_XID(var) unsigned var=(unsigned)g_xid
+#define SQ_NODE(i)  do{ g_state[i].rho=g_rho_s[i]; }while(0)
+#else
+#define SQ_XID(var) unsigned var=0; for(unsigned k=0;k+1<NXG;k++) if(lg[0].b==&g_rho_s[k][nrh]) var=k
+#define SQ_NODE(i)  ((void)0)
 static void mk_grid(struct SQuIDS* S, double* xi){
   S->nx=nondet_unsigned(); __CPROVER_assume(2<=S->nx && S->nx<=NXG);
   S->x=malloc(NXG*sizeof(double)); __CPROVER_assume(S->x!=NULL);
@@ -282,6 +311,7 @@ static void mk_grid(struct SQuIDS* S, double* xi){
   S->t=nondet_double(); S->t_ini=nondet_double(); S->state=g_state; for(unsigned e=0;e<NXB;e++) g_state[e].rho=g_rho_s[e];
   nlog=0; sq_thrown=0;
 }
+#endif
 #ifndef NXG
 #define NXG 4
 #endif
@@ -292,7 +322,7 @@ void h_GetExpectationValueD(void){
   __CPROVER_assert((sq_thrown==1) == (xi<S.x[0] || xi>S.x[S.nx-1]), "C05: an x outside the node range is reported as an error, an x inside is answered");
   if(sq_thrown==0){
     __CPROVER_assert(nlog==5 && lg[0].kind==K_MUL && lg[1].kind==K_MUL && lg[2].kind==K_H0 && lg[3].kind==K_EVOL && lg[4].kind==K_DOT, "C05: interpolate, evolve the operator, contract");
-    unsigned xid=0; for(unsigned k=0;k+1<NXG;k++) if(lg[0].b==&g_rho_s[k][nrh]) xid=k;
+    SQ_XID(xid);
     __CPROVER_assert(lg[0].b==&g_rho_s[xid][nrh] && lg[1].b==&g_rho_s[xid+1][nrh] && xid+1<S.nx && S.x[xid]<=xi && xi<=S.x[xid+1], "C05: the two states are those of the nodes bracketing x");
     __CPROVER_assert(lg[0].a==&buf.state && lg[0].w==0 && lg[1].a==&buf.state && lg[1].w==1, "C05: state = f1*rho[xid] (=) then += f2*rho[xid+1]");
     __CPROVER_assert(SQ_SAME(lg[2].t,xi) && lg[2].idx==nrh, "C05: H0 is evaluated at x itself for this density matrix");
@@ -311,7 +341,7 @@ void h_GetExpectationValueD_avg(void){
   if(sq_thrown==0){
     __CPROVER_assert(nlog==11 && lg[0].kind==K_MUL && lg[1].kind==K_MUL && lg[2].kind==K_H0 && lg[3].kind==K_BUFSIZE && lg[4].kind==K_H0 && lg[5].kind==K_PREPAVG && lg[6].kind==K_FASTEVOL
                      && lg[7].kind==K_DOT && lg[8].kind==K_DOT && lg[9].kind==K_COMB && lg[10].kind==K_COMB, "C05: averaging form: interpolate, size the buffer, prepare, evolve, contract twice, combine");
-    unsigned xid=0; for(unsigned k=0;k+1<NXG;k++) if(lg[0].b==&g_rho_s[k][nrh]) xid=k;
+    SQ_XID(xid);
     __CPROVER_assert(lg[0].b==&g_rho_s[xid][nrh] && lg[1].b==&g_rho_s[xid+1][nrh] && xid+1<S.nx && S.x[xid]<=xi && xi<=S.x[xid+1], "C05: averaging form: the two states are those of the nodes bracketing x");
     __CPROVER_assert(SQ_SAME(lg[2].t,xi) && lg[2].idx==nrh && lg[3].a==lg[2].a && SQ_SAME(lg[4].t,xi) && lg[4].idx==nrh, "C05: averaging form: H0 is evaluated at x itself, and the buffer is sized for it");
     __CPROVER_assert(lg[5].a==lg[4].a && lg[5].b==g_evolbuf && SQ_SAME(lg[5].t,S.t-S.t_ini) && SQ_SAME(lg[5].v,scale) && lg[5].c==&avr_obj, "C05: averaging form: PrepareEvolve(buffer, t-t_ini, scale, avr) on that H0");
@@ -322,7 +352,7 @@ void h_GetExpectationValueD_avg(void){
   __CPROVER_assert(0,"REACH end of harness");
 }
 void h_GetExpectationValue_avg(void){
-  struct SQuIDS S; double xi; mk_grid(&S,&xi); struct SU_vector op; unsigned nrh=nondet_unsigned(), i=nondet_unsigned(); __CPROVER_assume(nrh<NRB && i<S.nx && i<NXB);
+  struct SQuIDS S; double xi; mk_grid(&S,&xi); struct SU_vector op; unsigned nrh=nondet_unsigned(), i=nondet_unsigned(); __CPROVER_assume(nrh<NRB && i<S.nx && i<NXB); SQ_NODE(i);
   double scale=nondet_double(); int avr_obj;
   double r=SQuIDS_GetExpectationValue_avg(&S,&op,nrh,i,scale,&avr_obj);
   __CPROVER_assert(nlog==5 && lg[0].kind==K_H0 && SQ_SAME(lg[0].t,S.x[i]) && lg[0].idx==nrh, "C05: averaging node form: H0 at that node's x");
@@ -333,7 +363,7 @@ void h_GetExpectationValue_avg(void){
   __CPROVER_assert(0,"REACH end of harness");
 }
 void h_GetExpectationValue(void){
-  struct SQuIDS S; double xi; mk_grid(&S,&xi); struct SU_vector op; unsigned nrh=nondet_unsigned(), i=nondet_unsigned(); __CPROVER_assume(nrh<NRB && i<S.nx && i<NXB);
+  struct SQuIDS S; double xi; mk_grid(&S,&xi); struct SU_vector op; unsigned nrh=nondet_unsigned(), i=nondet_unsigned(); __CPROVER_assume(nrh<NRB && i<S.nx && i<NXB); SQ_NODE(i);
   double r=SQuIDS_GetExpectationValue(&S,&op,nrh,i);
   __CPROVER_assert(nlog==3 && lg[0].kind==K_H0 && SQ_SAME(lg[0].t,S.x[i]) && lg[0].idx==nrh, "C05: node form: H0 at that node's x");
   __CPROVER_assert(lg[1].kind==K_EVOL && lg[1].b==lg[0].a && lg[1].c==&op && SQ_SAME(lg[1].t,S.t-S.t_ini), "C05: operator evolved forward by H0 over t-t_ini");
@@ -346,7 +376,7 @@ void h_GetIntermediateState(void){
   __CPROVER_assert((sq_thrown==1) == (xi<S.x[0] || xi>S.x[S.nx-1]), "C05: an x outside the node range is reported as an error, an x inside is answered");
   if(sq_thrown==0){
     __CPROVER_assert(nlog==1 && lg[0].kind==K_ADDRR && lg[0].a==&ret, "C05: convex combination of two states");
-    unsigned xid=0; for(unsigned k=0;k+1<NXG;k++) if(lg[0].b==&g_rho_s[k][nrh]) xid=k;
+    SQ_XID(xid);
     __CPROVER_assert(lg[0].b==&g_rho_s[xid][nrh] && lg[0].c==&g_rho_s[xid+1][nrh] && xid+1<S.nx && S.x[xid]<=xi && xi<=S.x[xid+1], "C05: f1*rho[xid]+f2*rho[xid+1] with the nodes bracketing x");
   }
   __CPROVER_assert(0,"REACH end of harness");
@@ -358,12 +388,12 @@ int main(void){
   struct SQuIDS S; double xi; mk_grid(&S,&xi); struct SU_vector op, ret; struct evbuf buf; unsigned nrh=nondet_unsigned(); __CPROVER_assume(nrh<NRB);
 #if L2WEIGHTS==1
   SQuIDS_GetExpectationValueD(&S,&op,nrh,xi,&buf);
-  if(sq_thrown==0 && nlog>=2){ unsigned xid=0; for(unsigned k=0;k+1<NXG;k++) if(lg[0].b==&g_rho_s[k][nrh]) xid=k;
+  if(sq_thrown==0 && nlog>=2){ SQ_XID(xid);
     __CPROVER_assume(lg[0].b==&g_rho_s[xid][nrh] && xid+1<S.nx);
     __CPROVER_assert(lg[1].t*(S.x[xid+1]-S.x[xid])==xi-S.x[xid] && lg[0].t==1-lg[1].t, "C05: linear weights f2=(x-x_i)/(x_{i+1}-x_i), f1=1-f2 (real arithmetic)"); }
 #else
   SQuIDS_GetIntermediateState(&S,&ret,nrh,xi);
-  if(sq_thrown==0 && nlog>=1){ unsigned xid=0; for(unsigned k=0;k+1<NXG;k++) if(lg[0].b==&g_rho_s[k][nrh]) xid=k;
+  if(sq_thrown==0 && nlog>=1){ SQ_XID(xid);
     __CPROVER_assume(lg[0].b==&g_rho_s[xid][nrh] && xid+1<S.nx);
     __CPROVER_assert(lg[0].v*(S.x[xid+1]-S.x[xid])==xi-S.x[xid] && lg[0].t==1-lg[0].v, "C05: linear weights f2=(x-x_i)/(x_{i+1}-x_i), f1=1-f2 (real arithmetic)"); }
 #endif
